@@ -21,7 +21,8 @@ RULE = ("Kruskal tensors of order 1..4 (mode sizes 1..4, singleton modes) and ra
         "of the one-more / one-fewer switch, exact floating point for the {0, +-1} patterns), references of another shape "
         "or with more components, each followed by a second call (alignment normal form, parity, idempotence); "
         "normalize() twice for each norm; arrange by p then q against arrange by p[q]; redistribute into every mode; "
-        "extract with valid subsets, duplicates and invalid index lists; tovec/from_vector/update/tolist; + - neg * ; "
+        "extract with valid subsets, duplicates and invalid index lists; tovec/from_vector/update/tolist (the parameter vector "
+        "handed to from_vector as 1-d / n x 1 / 1 x n with both weight flags, and as a non-vector); + - neg * ; "
         "score against permuted / perturbed copies, exact copies (tied congruences), unit-vector / 3-4-5 / zero columns "
         "and zero weights for every rank pair RB<=RA<=4 and orders 2..4, greedy=False, thresholds outside [0,1], other "
         "shapes (returns exactly on the valid requests; score = mean of the matched congruences; greedy matching); "
@@ -49,6 +50,8 @@ EXHAUSTIVE = {"quick": False, "thorough": False}
 
 TOL = 1e-12
 DTOL = 1e-10
+#: argument conventions of a parameter vector: 1-d, n x 1 column, 1 x n row
+VEC_FORMS = ("1d", "col", "row")
 
 warnings.filterwarnings("ignore")
 
@@ -274,11 +277,15 @@ class Algebra(KFamily):
             if R >= 2:
                 out.append({"op": "extract", "K": K, "idx": [0, 0], "as": "list"})
             # vectors
+            # (the parameter vector is handed over as a 1-d array, as an n x 1 column and as a 1 x n row)
             for w in (True, False):
-                out.append({"op": "vec", "K": K, "w": w})
+                for how in VEC_FORMS:
+                    out.append({"op": "vec", "K": K, "w": w, "as": how})
             for w in (True, False):
                 n_data = R * (sum(s) + (1 if w else 0))
-                out.append({"op": "from_vector", "data": [rng.randint(-9, 9) for _ in range(n_data)], "shape": s, "w": w})
+                for how in VEC_FORMS:
+                    out.append({"op": "from_vector", "data": [rng.randint(-9, 9) for _ in range(n_data)], "shape": s,
+                                "w": w, "as": how})
             out.append({"op": "tolist", "K": dict(K, weights=[1] * R)})
             out.append({"op": "update_all", "K": K, "L": gen_kt(rng, s, R)})
             modes = sorted(rng.sample(range(-1, N), rng.randint(1, N + 1)))
@@ -308,8 +315,14 @@ class Algebra(KFamily):
             out.append({"op": "extract", "K": K, "idx": [R], "as": "list"})
             out.append({"op": "extract", "K": K, "idx": [-1], "as": "array"})
             out.append({"op": "extract", "K": K, "idx": R, "as": "int"})
-            out.append({"op": "from_vector", "data": list(range(1, R * (sum(s) + 1) + 2)), "shape": s, "w": True})
+            out.append({"op": "from_vector", "data": list(range(1, R * (sum(s) + 1) + 2)), "shape": s, "w": True,
+                        "as": rng.choice(VEC_FORMS)})
             out.append({"op": "from_vector", "data": list(range(1, R * sum(s) + 1)), "shape": s, "w": False})
+            # a parameter vector that is not a vector: 2 x n/2, n x 1 x 1, 0-d
+            nv = R * sum(s)
+            if nv >= 2:     # (2 x 1 is a column)
+                out.append({"op": "from_vector", "data": list(range(1, 2 * nv + 1)), "shape": s, "w": False, "as": "2rows"})
+            out.append({"op": "from_vector", "data": list(range(1, nv + 1)), "shape": s, "w": False, "as": "3d"})
             out.append({"op": "update", "K": K, "modes": [0, -1][: N + 1], "data": self._data(rng, K, [-1, 0])})
             out.append({"op": "update", "K": K, "modes": [0], "data": self._data(rng, K, [0])[:-1]})
             out.append({"op": "update", "K": K, "modes": [N], "data": [1, 2, 3]})
@@ -340,6 +353,20 @@ class Algebra(KFamily):
             return np.array(l, dtype=int)
         return list(l)
 
+    @staticmethod
+    def _vec(v, how):
+        """the argument conventions of a parameter vector"""
+        v = np.array(v, dtype=float)
+        if how == "col":
+            return v.reshape(-1, 1)
+        if how == "row":
+            return v.reshape(1, -1)
+        if how == "2rows":
+            return v.reshape(2, -1)
+        if how == "3d":
+            return v.reshape(-1, 1, 1)
+        return v
+
     def impl(self, c):
         op = c["op"]
         if op == "construct":
@@ -347,7 +374,7 @@ class Algebra(KFamily):
             w = None if c["weights"] is None else np.array(c["weights"], dtype=float)
             return kj(ttb.ktensor(fs, w))
         if op == "from_vector":
-            return kj(ttb.ktensor.from_vector(np.array(c["data"], dtype=float), tuple(c["shape"]), c["w"]))
+            return kj(ttb.ktensor.from_vector(self._vec(c["data"], c.get("as", "1d")), tuple(c["shape"]), c["w"]))
         K = mk(c["K"])
         if op in ("add", "sub"):
             L = mk(c["L"])
@@ -372,7 +399,7 @@ class Algebra(KFamily):
             return kj(K.extract(idx))
         if op == "vec":
             v = K.tovec(c["w"])
-            back = ttb.ktensor.from_vector(v.copy(), K.shape, c["w"])
+            back = ttb.ktensor.from_vector(self._vec(v, c.get("as", "1d")), K.shape, c["w"])
             return {"vec": jval(v), "back": kj(back)}
         if op == "tolist":
             return [jval(np.asarray(f)) for f in K.tolist()]
@@ -393,6 +420,9 @@ class Algebra(KFamily):
         if op == "construct":
             return {"op": "k_construct", "factors": c["factors"], "weights": c["weights"]}
         if op == "from_vector":
+            if self.spec_rejects(c) is True and c.get("as", "1d") in ("2rows", "3d"):
+                # outside the model's domain (its argument is a list): answered by the specification alone, see evaluate
+                return {"op": "k_from_vector", "data": [], "shape": c["shape"], "w": c["w"]}
             return {"op": "k_from_vector", "data": c["data"], "shape": c["shape"], "w": c["w"]}
         if op in ("add", "sub"):
             return {"op": "k_" + op, "K": c["K"], "L": c["L"]}
@@ -426,6 +456,9 @@ class Algebra(KFamily):
     def evaluate(self, cases):
         impls = [call(self.impl, c) for c in cases]
         models = drive([self.req(c) for c in cases])
+        for k, c in enumerate(cases):
+            if c["op"] == "from_vector" and self.spec_rejects(c) is True and c.get("as", "1d") in ("2rows", "3d"):
+                models[k] = {"reject": True}
         # second stage for the vector round trip: the model's from_vector on the model's vector
         second = {}
         reqs2 = []
@@ -443,6 +476,8 @@ class Algebra(KFamily):
         op = c["op"]
         tags = [op]
         ic = strip_exc(impl)
+        if op in ("vec", "from_vector"):
+            tags.append("vector-as-" + c.get("as", "1d") + ("-weights" if c["w"] else "-noweights"))
         if "K" in c:
             tags += [f"N{len(c['K']['factors'])}", f"R{len(c['K']['weights'])}"]
         # model side wrapped uniformly
@@ -529,6 +564,14 @@ class Algebra(KFamily):
         if op == "redistribute":
             N = len(c["K"]["factors"])
             return not (0 <= c["mode"] < N)
+        if op == "from_vector":
+            # a vector (1-d, n x 1 or 1 x n) whose length is a positive multiple of the parameters per component
+            if c.get("as", "1d") == "3d" or (c.get("as") == "2rows" and len(c["data"]) > 2):
+                return True
+            per = sum(c["shape"]) + (1 if c["w"] else 0)
+            if per == 0 or len(c["data"]) == 0:
+                return None
+            return len(c["data"]) % per != 0
         return None
 
     @staticmethod
@@ -570,6 +613,17 @@ class Algebra(KFamily):
             if not deep_eq(r, want):
                 return "constructor changed its arguments"
         if op == "from_vector":
+            # the inverse of tovec, written out: weights first (or ones), then every factor matrix column by column
+            d, sh = c["data"], c["shape"]
+            R = len(d) // (sum(sh) + (1 if c["w"] else 0))
+            pos = R if c["w"] else 0
+            want = {"weights": d[:R] if c["w"] else [1] * R, "factors": []}
+            for n_k in sh:
+                blk = d[pos:pos + n_k * R]
+                want["factors"].append([[blk[rr * n_k + i] for rr in range(R)] for i in range(n_k)])
+                pos += n_k * R
+            if not deep_eq(r, want):
+                return "from_vector did not split the parameter vector into weights and column-major factor matrices"
             return None
         if op in ("pos", "copy") and not deep_eq(r, c["K"]):
             return "copy differs from the original"
